@@ -8,6 +8,8 @@
 package main
 
 import (
+	"database/sql"
+	"sync/atomic"
 	"encoding/json"
 	"flag"
 	"fmt"
@@ -57,11 +59,16 @@ type Round struct {
 	// Idle: a quiet server (long signal timeout, generous queues); each request arrives while the loop sleeps and
 	// shutdown is requested right behind the last one - accepted requests must still be answered
 	Idle bool `json:"idle,omitempty"`
+	// Refuse: the transports refuse this many hand-offs (queue full) before accepting: a transient failure delays dispatch
+	// but never prevents it (C11)
+	Refuse int `json:"refuse,omitempty"`
 }
 
 type okPlugin struct {
-	typ string
-	ok  bool
+	typ       string
+	ok        bool
+	refuse    *int32 // > 0: this many further hand-offs are refused (transport queue full) before the transport accepts
+	delivered *int64
 }
 
 func (p *okPlugin) String() string           { return "stub:" + p.typ }
@@ -69,6 +76,12 @@ func (p *okPlugin) Type() string             { return p.typ }
 func (p *okPlugin) Start(chan<- error) error { return nil }
 func (p *okPlugin) Stop() error              { return nil }
 func (p *okPlugin) Enqueue(m *iaio.Message) bool {
+	if p.refuse != nil && atomic.AddInt32(p.refuse, -1) >= 0 {
+		return false // transient: the transport's queue is full
+	}
+	if p.delivered != nil {
+		atomic.AddInt64(p.delivered, 1)
+	}
 	go m.Done(p.ok, nil) // transports answer from their own goroutines
 	return true
 }
@@ -80,6 +93,9 @@ func drawRound(r *rand.Rand) Round {
 		Clients: small(1, 2, 4, 8), PerClient: small(3, 6, 12), ShutdownAt: -1, TransportOk: r.Intn(4) != 0}
 	if r.Intn(2) == 0 {
 		rd.ShutdownAt = r.Intn(rd.Clients*rd.PerClient + 1)
+	}
+	if r.Intn(3) == 0 {
+		rd.Refuse = 1 + r.Intn(4)
 	}
 	if r.Intn(3) == 0 {
 		rd.Idle = true
@@ -109,8 +125,10 @@ func runRound(rd Round, dir string) M {
 	if err != nil {
 		return M{"harness": err.Error()}
 	}
-	sn.VerifWorker().AddPlugin(&okPlugin{"poll", rd.TransportOk})
-	sn.VerifWorker().AddPlugin(&okPlugin{"http", rd.TransportOk})
+	refuse := int32(rd.Refuse)
+	var delivered int64
+	sn.VerifWorker().AddPlugin(&okPlugin{"poll", rd.TransportOk, &refuse, &delivered})
+	sn.VerifWorker().AddPlugin(&okPlugin{"http", rd.TransportOk, &refuse, &delivered})
 	a.AddSubsystem(st)
 	a.AddSubsystem(rt)
 	a.AddSubsystem(sn)
@@ -236,6 +254,33 @@ func runRound(rd Round, dir string) M {
 				"property_violation": true, "status": status}
 		}
 		time.Sleep(2 * time.Millisecond)
+	}
+	// C11: while unclaimed tasks of pending promises are waiting and the transports accept, hand-offs keep being attempted
+	// (an unclaimed task cycles init -> enqueued -> init as its claim window lapses, so deliveries keep coming)
+	if rd.ShutdownAt < 0 || rd.ShutdownAt >= total {
+		waiting := func() int {
+			db, err := sql.Open("sqlite3", path)
+			if err != nil {
+				return 0
+			}
+			defer db.Close()
+			var n int
+			_ = db.QueryRow(`SELECT count(*) FROM tasks t JOIN promises p ON p.id = t.root_promise_id WHERE t.state IN (1, 2) AND p.state = 1 AND p.timeout > ? AND t.timeout > ?`,
+				time.Now().UnixMilli()+10000, time.Now().UnixMilli()+10000).Scan(&n)
+			return n
+		}
+		if w0 := waiting(); w0 > 0 {
+			c0 := atomic.LoadInt64(&delivered)
+			stuck := true
+			for i := 0; i < 30 && stuck; i++ {
+				time.Sleep(100 * time.Millisecond)
+				stuck = atomic.LoadInt64(&delivered) == c0 && waiting() > 0
+			}
+			if stuck {
+				return M{"what": fmt.Sprintf("no hand-off was attempted for 3 s although %d unclaimed tasks of pending promises are waiting and the transports accept (refused before: %d)", w0, rd.Refuse),
+					"property_violation": true, "status": status}
+			}
+		}
 	}
 	// graceful shutdown completes
 	doShutdown()
